@@ -224,7 +224,7 @@ def f_threads(t, nwrites):
 
 def obligations(tier):
     thorough = tier == "thorough"
-    nmax = 300 if thorough else 140
+    nmax = 700 if thorough else 140
     full = []
     variants = [("default", "bytes"), ("bytes", "bytes"), ("str", "bytes"), ("default", "bytearray"),
                 ("bytes", "bytearray"), ("str", "bytearray")]
